@@ -1,7 +1,7 @@
 import Abverif.Model.Http
 import Abverif.Model.Url
-import Abverif.Model.Crypto.Sha1
-import Abverif.Model.Crypto.Base64
+import Abverif.Model.Crypto7.Sha1
+import Abverif.Model.Crypto7.Base64
 /-!
 C07 — model and spec of the WebSocket opening handshake (`autobahn.websocket.protocol`).  Import-free.
 
